@@ -291,6 +291,42 @@ class History(object):
                 self.brk_region = None if not any(r_ is self.brk_region for r_ in self.live) else self.brk_region
         self.check_new("LinuxEnvironment.mmap", kind, addr, size, tag=" (MAP_FIXED)" if fixed else "")
 
+    def op_mmap_zero_pair(self):
+        """mmap(0 bytes) immediately followed by mmap(n bytes), both without hint, when the first one
+        was served at the environment's allocation cursor (mmap_current) with nothing mapped at or
+        above it: the occupied-interval search of mmap cannot interfere, so the second address can
+        only equal the first if the zero-length request did not reserve its address"""
+        flags = MAP_PRIVATE | MAP_ANON
+        cursor = self.env.mmap_current
+        self.ops.append(("mmap", "0x0", "0x0", hex(flags)))
+        a = self.guarded("LinuxEnvironment.mmap", "mmap(hint=0)", 0,
+                         lambda: self.env.mmap(0, 0, 3, flags, 0xffffffff, 0, self.vm))
+        self.ops[-1] = self.ops[-1] + ("-> " + hex(a),)
+        self.rec.count("mmap:hint=0")
+        top = max([ad + info["size"] for ad, info in self.vm.get_all_memory().items() if info["size"]] or [0])
+        self.check_new("LinuxEnvironment.mmap", "mmap(hint=0)", a, 0)
+        if a != cursor or a < top:
+            # the request was moved past existing mappings by the occupied-interval search: the
+            # known empty-page defect can hand the same address out again
+            self.rec.count("mmap_zero_pair_skipped_relocated")
+            return
+        size = self.rng.choice([1, 0xfff, 0x1000, 0x1001, 0x2345])
+        self.ops.append(("mmap", "0x0", hex(size), hex(flags)))
+        b = self.guarded("LinuxEnvironment.mmap", "mmap(hint=0)", size,
+                         lambda: self.env.mmap(0, size, 3, flags, 0xffffffff, 0, self.vm))
+        self.ops[-1] = self.ops[-1] + ("-> " + hex(b),)
+        self.rec.count("mmap:hint=0")
+        self.rec.count("mmap_zero_pair_checked")
+        if b == a:
+            self.rec.ev()
+            self.fail("LinuxEnvironment.mmap: a zero-length mapping at the allocation cursor does not reserve its address",
+                      "mmap(0 bytes) returned 0x%x with nothing mapped at or above it; the next mmap(0x%x bytes) "
+                      "returned the same address" % (a, size))
+            self.live.append(dict(addr=b, size=size, kind="mmap(hint=0)", n=len(self.ops)))
+            self.note("mmap(hint=0)", size, "bad")
+            return
+        self.check_new("LinuxEnvironment.mmap", "mmap(hint=0)", b, size)
+
     def op_brk(self):
         rng = self.rng
         cur = self.guarded("LinuxEnvironment.brk", "brk(0)", 0, lambda: self.env.brk(0, self.vm))
@@ -362,7 +398,7 @@ class History(object):
         if self.os == "windows":
             table = [(self.op_win_heap, 6), (self.op_virtualalloc, 4)]
         else:
-            table = [(self.op_malloc, 3), (self.op_mmap, 6), (self.op_brk, 3)]
+            table = [(self.op_malloc, 3), (self.op_mmap, 6), (self.op_brk, 3), (self.op_mmap_zero_pair, 1)]
         fns = [f for f, _ in table]
         ws = [w for _, w in table]
         try:
@@ -398,6 +434,9 @@ def floors(tier, c, evaluations):
               "size:0", "size:<page", "size:page", "size:>page", "size:large", "audits_passed"):
         if c.get(k, 0) == 0:
             miss.append("never observed: " + k)
+    if c.get("mmap_zero_pair_checked", 0) < 20:
+        miss.append("fewer than 20 (zero-length mmap, mmap) pairs at the allocation cursor (%d)" %
+                    c.get("mmap_zero_pair_checked", 0))
     if c.get("allocations_verified", 0) < 200:
         miss.append("fewer than 200 allocations verified (%d)" % c.get("allocations_verified", 0))
     return miss
